@@ -11,6 +11,7 @@ import (
 	"time"
 
 	"github.com/fiorix/go-diameter/v4/diam"
+	"github.com/fiorix/go-diameter/v4/diam/dict"
 	"github.com/fiorix/go-diameter/v4/diam/datatype"
 )
 
@@ -46,6 +47,7 @@ type srvCfg struct {
 	parkMask   int        // with sched: bit (2*conn+msg) set = that handler parks until released
 	tableForce *tableForce // enumerated registration table and message (C09 sweep)
 	malformedOnly []int // restrict undecodable messages to these kinds (indexes into malformedKinds)
+	bareDict   bool // the connections use a dictionary that defines the commands and the harness's AVPs but no base AVPs (no Result-Code)
 	idxRegs    bool // besides the catch-all, exact-index handlers for some commands (every message still has a handler)
 	nilHandler bool // the Server (and dialled connections) get a nil Handler: diam.DefaultServeMux serves
 	tlsStall   bool // one more peer connects over TLS and never gets through its handshake
@@ -216,6 +218,13 @@ func newSrvWorld(e *Env, cfg srvCfg) *srvWorld {
 	}
 	w.regs = refRegs{idx: map[[3]uint32]string{}, name: map[string]string{}}
 	return w
+}
+
+func (w *srvWorld) dict() *dict.Parser {
+	if w.cfg.bareDict {
+		return simDictBare()
+	}
+	return simDict()
 }
 
 // handler returns an instrumented handler registered under hname.
@@ -584,7 +593,7 @@ func genMalformedKind(t *Tape, conn, k int, forced int) (string, []byte) {
 }
 
 func (w *srvWorld) start() {
-	srv := &diam.Server{Handler: w.mux, Dict: simDict()}
+	srv := &diam.Server{Handler: w.mux, Dict: w.dict()}
 	if w.cfg.nilHandler {
 		srv.Handler = nil
 	}
@@ -598,7 +607,7 @@ func (w *srvWorld) connect(pc *peerConn) {
 		if w.cfg.nilHandler {
 			h = nil
 		}
-		c, err := diam.NewConn(pc.sc, "sim:3868", h, simDict())
+		c, err := diam.NewConn(pc.sc, "sim:3868", h, w.dict())
 		if err != nil {
 			w.e.Harness("NewConn: %v", err)
 		}
